@@ -165,3 +165,87 @@ Proof.
   rewrite vint_dec_f_agrees by (try discriminate; exact H35).
   rewrite N.mod_small by exact Hx. reflexivity.
 Qed.
+
+(* ------------------------------------------------------------------ serialize_vint_u32 (common/src/vint.rs)
+   The branch (number of bytes) is chosen by the pinned thresholds START_2..START_5; in the k-byte branch
+   byte j < k-1 is `((val & MASK_{j+1}) << j)` seen through to_le_bytes, i.e. (val >> 7j) & 127, and the
+   last byte additionally carries STOP_BIT.  TantivyDocument (CompactDoc) uses this encoder for the
+   length prefix of every str / bytes / facet value and of array / object address lists, and reads it
+   back with read_u32_vint_no_advance. *)
+Fixpoint vint32_bytes (nb : nat) (v : N) : bytes :=
+  match nb with
+  | O => []
+  | S O => [v mod 128 + VINT_STOP_BIT]
+  | S k => v mod 128 :: vint32_bytes k (v / 128)
+  end.
+
+Definition vint32_num_bytes (v : N) : nat :=
+  if N.ltb v VINT32_START_2 then 1
+  else if N.ltb v VINT32_START_3 then 2
+  else if N.ltb v VINT32_START_4 then 3
+  else if N.ltb v VINT32_START_5 then 4
+  else 5.
+
+Definition serialize_vint_u32 (v : N) : bytes := vint32_bytes (vint32_num_bytes v) v.
+
+Lemma vint32_bytes_dec nb : forall fuel v rest,
+  nb <> O -> (nb <= fuel)%nat -> v < 128 ^ N.of_nat nb ->
+  vint_dec_f fuel (vint32_bytes nb v ++ rest) = Some (v, rest).
+Proof.
+  induction nb as [|k IH]; intros fuel v rest Hnb Hf Hv; [congruence|].
+  destruct fuel as [|f]; [lia|].
+  pose proof (N.div_mod v 128 ltac:(lia)) as Hdm.
+  pose proof (N.mod_lt v 128 ltac:(lia)) as Hm.
+  destruct k as [|k'].
+  - change (128 ^ N.of_nat 1) with 128 in Hv.
+    cbn [vint32_bytes app vint_dec_f]. rewrite stop_bit_is_128.
+    replace (N.leb 128 (v mod 128 + 128)) with true by (symmetry; apply N.leb_le; lia).
+    f_equal. f_equal.
+    rewrite <- N.add_mod_idemp_r by lia. rewrite N.mod_same by lia.
+    rewrite N.add_0_r, N.mod_mod by lia. rewrite N.mod_small in * by lia. lia.
+  - change (vint32_bytes (S (S k')) v) with (v mod 128 :: vint32_bytes (S k') (v / 128)).
+    cbn [app vint_dec_f]. rewrite stop_bit_is_128.
+    replace (N.leb 128 (v mod 128)) with false by (symmetry; apply N.leb_gt; lia).
+    rewrite IH; [|discriminate|lia|].
+    + rewrite N.mod_mod by lia. f_equal. f_equal. lia.
+    + rewrite Nat2N.inj_succ, N.pow_succ_r' in Hv. apply N.div_lt_upper_bound; lia.
+Qed.
+
+(* the thresholds (regenerated from the source) must keep every branch wide enough for its values:
+   these four facts are re-checked by computation on every run *)
+Lemma vint32_start_2_ok : VINT32_START_2 <= 128 ^ 1. Proof. vm_compute. discriminate. Qed.
+Lemma vint32_start_3_ok : VINT32_START_3 <= 128 ^ 2. Proof. vm_compute. discriminate. Qed.
+Lemma vint32_start_4_ok : VINT32_START_4 <= 128 ^ 3. Proof. vm_compute. discriminate. Qed.
+Lemma vint32_start_5_ok : VINT32_START_5 <= 128 ^ 4. Proof. vm_compute. discriminate. Qed.
+
+Theorem serialize_vint_u32_roundtrip v rest :
+  v < 2 ^ 32 -> read_u32_vint (serialize_vint_u32 v ++ rest) = Some (v, rest).
+Proof.
+  intros Hv. unfold read_u32_vint, serialize_vint_u32, vint32_num_bytes.
+  pose proof vint32_start_2_ok. pose proof vint32_start_3_ok. pose proof vint32_start_4_ok. pose proof vint32_start_5_ok.
+  assert (H32 : 2 ^ 32 < 128 ^ 5) by (vm_compute; reflexivity).
+  destruct (N.ltb_spec v VINT32_START_2); [|destruct (N.ltb_spec v VINT32_START_3); [|destruct (N.ltb_spec v VINT32_START_4); [|destruct (N.ltb_spec v VINT32_START_5)]]];
+    (rewrite vint32_bytes_dec; [rewrite N.mod_small by exact Hv; reflexivity|discriminate|lia|]).
+  - change (N.of_nat 1) with 1. lia.
+  - change (N.of_nat 2) with 2. lia.
+  - change (N.of_nat 3) with 3. lia.
+  - change (N.of_nat 4) with 4. lia.
+  - change (N.of_nat 5) with 5. lia.
+Qed.
+
+(* CompactDoc write_bytes_into / binary_deserialize_bytes: a length-prefixed payload is read back whole *)
+Definition compact_write_bytes (data : bytes) : bytes := serialize_vint_u32 (N.of_nat (length data)) ++ data.
+Definition compact_read_bytes (l : bytes) : option bytes :=
+  match read_u32_vint l with
+  | Some (n, rest) => if Nat.leb (N.to_nat n) (length rest) then Some (firstn (N.to_nat n) rest) else None
+  | None => None
+  end.
+
+Theorem compact_bytes_roundtrip data tail :
+  N.of_nat (length data) < 2 ^ 32 -> compact_read_bytes (compact_write_bytes data ++ tail) = Some data.
+Proof.
+  intros Hl. unfold compact_read_bytes, compact_write_bytes. rewrite <- app_assoc.
+  rewrite serialize_vint_u32_roundtrip by exact Hl. rewrite Nat2N.id, app_length.
+  replace (Nat.leb (length data) (length data + length tail)) with true by (symmetry; apply Nat.leb_le; lia).
+  now rewrite firstn_app_exact.
+Qed.
